@@ -163,6 +163,7 @@ class Selector(object):
             warnings.warn(DeprecationWarning(msg))
 
         self._variables = kwargs.pop('variables', None)
+        self._namespaces = namespaces
         self.parser = (parser or XPath2Parser)(namespaces, **kwargs)
         self.path = path
         self.root_token = self.parser.parse(path)
@@ -191,6 +192,8 @@ class Selector(object):
             kwargs['schema'] = self.parser.schema
         if 'variables' not in kwargs and self._variables:
             kwargs['variables'] = self._variables
+        if 'namespaces' not in kwargs and self._namespaces:
+            kwargs['namespaces'] = self._namespaces  # as select() does
 
         context = XPathContext(root, **kwargs)
         return self.root_token.get_results(context)
@@ -209,6 +212,8 @@ class Selector(object):
             kwargs['schema'] = self.parser.schema
         if 'variables' not in kwargs and self._variables:
             kwargs['variables'] = self._variables
+        if 'namespaces' not in kwargs and self._namespaces:
+            kwargs['namespaces'] = self._namespaces  # as select() does
 
         context = XPathContext(root, **kwargs)
         return self.root_token.select_results(context)
